@@ -107,6 +107,8 @@ SUITES = {
     'vcomposer': {'module': 'specs.vcomposer', 'spec_class': 'VComposerSpec', 'functions': 'specs.vcomposer', 'files': {}, 'obligations': 'posts'},
     'ecomposer': {'module': 'specs.ecomposer', 'spec_class': 'EComposerSpec', 'functions': 'specs.ecomposer', 'files': {}, 'obligations': 'posts'},
     'vparser': {'module': 'specs.vparser', 'spec_class': 'VParserSpec', 'functions': 'specs.vparser', 'files': {}, 'obligations': 'posts'},
+    'uniq': {'module': 'specs.uniq', 'spec_class': 'UniqSpec', 'functions': 'specs.uniq', 'files': {}, 'obligations': 'posts'},
+    'flat': {'module': 'specs.flat', 'spec_class': 'FlatSpec', 'functions': 'specs.flat', 'files': {}, 'obligations': 'posts'},
     'hwires': {'module': 'specs.hwires', 'spec_class': 'HWiresSpec', 'functions': 'specs.hwires', 'files': {}, 'obligations': 'posts'},
     'href': {'module': 'specs.href', 'spec_class': 'HRefSpec', 'functions': 'specs.href', 'files': {}, 'obligations': 'posts'},
     'compare': {'module': 'specs.compare', 'spec_class': 'CompareSpec', 'functions': 'specs.compare',
